@@ -32,7 +32,8 @@ FUNCTIONS = [(W, "RTDCWriter.store_feature"), (W, "RTDCWriter.write_ndarray"),
              (W, "RTDCWriter.store_log"), (W, "RTDCWriter.rectify_metadata"),
              (W, "RTDCWriter.get_best_nd_chunks"),
              (EV, "H5Events.__getitem__"), (EV, "H5ContourEvent.__getitem__"),
-             (EV, "H5MaskEvent.__getitem__"), (LG, "H5Logs.__getitem__")]
+             (EV, "H5MaskEvent.__getitem__"),
+             (EV, "H5MaskEvent.__iter__"), (LG, "H5Logs.__getitem__")]
 BOUNDS = {
     "quick": {"append step": "stored events m = 0..5, appended n = 1..6, "
               "chunk size of the existing dataset symbolic 1..8",
@@ -44,7 +45,10 @@ BOUNDS = {
               "through the real H5Logs reader, leading / trailing white "
               "space of every line symbolic",
               "contours": "m = 0..3 stored, n = 1..3 appended, writer "
-              "re-opened or not"},
+              "re-opened or not",
+              "masks": "3 events; boolean pixels, and integer-typed masks "
+              "with symbolic pixel values 0..255 (stored unchanged, read "
+              "back as value != 0 by item access and iteration)"},
     "thorough": {"append step": "m = 0..8, n = 1..9, chunk 1..12",
                  "call histories": "N = 23 over 2..3 calls"},
 }
